@@ -630,47 +630,85 @@ def call_obj(o, s):
         return err_kind(e), []
 
 
+def _box_arr(case):
+    return None if case["box"] is None else np.array([float(Fr(x)) for x in case["box"]], dtype=float)
+
+
+def _install(System, holder, case, mode, scale=None):
+    """bring `holder` = {'s': System, 'pos':…, 'vel':…, 'box':…} to the CURRENT contents of `case`.
+    mode 'new'      : new System object, new arrays
+    mode 'samesys'  : the same System object, new arrays assigned to its attributes
+    mode 'inplace'  : the same System object AND the same numpy arrays, overwritten in place
+                      (`box *= scale` when a scale is given, else `arr[...] = contents`)"""
+    pos, vel, box = fl(case["pos"]), fl(case["vel"]), _box_arr(case)
+    can_inplace = (holder.get("s") is not None and holder["pos"].shape == pos.shape and holder["vel"].shape == vel.shape
+                   and (box is None) == (holder["box"] is None) and (box is None or holder["box"].shape == box.shape))
+    if mode == "inplace" and can_inplace:
+        holder["pos"][...] = pos
+        holder["vel"][...] = vel
+        if box is not None:
+            if scale is not None:
+                holder["box"] *= float(Fr(scale))
+                assert holder["box"].tobytes() == box.tobytes(), "harness: scaled box is not exact"
+            else:
+                holder["box"][...] = box
+        return
+    if mode == "new" or holder.get("s") is None:
+        s = System()
+        s.config = ("frame.xyz", 0)
+        s.order = [0.25]
+        holder["s"] = s
+    holder["pos"], holder["vel"], holder["box"] = pos, vel, box
+    holder["s"].pos, holder["s"].vel, holder["s"].box = pos, vel, box
+
+
 def check_history(opm, System, op, frames, models=None):
-    """ONE order-parameter object (and ONE engine holding it, as the library does) evaluated over a sequence of
-    systems with different boxes; every evaluation must equal what a fresh object gives for that system alone
-    (and the model's value for that system).  -> None | (signature, what)"""
+    """ONE order-parameter object (and ONE engine holding another, as the library does) evaluated over a sequence
+    of systems: new Systems with new boxes, the same System with new arrays, and the SAME arrays changed in place
+    (box rescaled / overwritten, 3- and 9-component).  Every evaluation must equal what a fresh object gives for the
+    CURRENT contents alone (and the model's value for them).  -> None | (signature, what)"""
     name = op[0]
     long_obj = build(opm, op)
     table = {}
     eng = make_engine(build(opm, op), table)       # a second long-lived object, used through calculate_order
+    direct, ebuf = {}, {}                          # System + arrays of the direct route / the engine's own buffers
     for j, fr in enumerate(frames):
-        case = {"op": op, **fr}
+        case = {"op": op, "pos": fr["pos"], "vel": fr["vel"], "box": fr["box"]}
+        mode = fr.get("mode", "new")
+        hist = [(f.get("mode", "new"), f["box"]) for f in frames[:j]]
         ks = kinds_of(case)
         kinds, skip = ks if ks else (["lin"] * 3, [False] * 3)
-        # fresh object, this system only
+        # fresh object, fresh System, current contents only
         tf, vf = call_obj(build(opm, op), mk_sys(System, case))
         # long-lived object, direct call (+ System purity)
-        s = mk_sys(System, case)
+        _install(System, direct, case, mode, fr.get("scale"))
+        s = direct["s"]
         before = snapshot(s)
         tl, vl = call_obj(long_obj, s)
         if snapshot(s) != before:
             return ("C20:purity", f"{name}.calculate modified the System (frame {j} of a sequence, indices {op[1:-1]})")
         if tl != tf or (tf == "ok" and not same_vals(vl, vf, kinds, skip)):
-            return (SIG_H, f"{name}: frame {j} (box {fr['box']}) evaluated by an object that has already seen "
-                           f"{[f['box'] for f in frames[:j]]} gives {tl} {vl}; a fresh object gives {tf} {vf}")
-        # long-lived engine, alternating routes of calculate_order
-        xyz, vel = fl(case["pos"]), fl(case["vel"])
-        box = None if case["box"] is None else np.array([float(Fr(x)) for x in case["box"]], dtype=float)
-        table["frame.xyz"] = (xyz, vel, box)
-        s2 = System()
-        s2.config = ("frame.xyz", j)
-        s2.box = None
+            return (SIG_H, f"{name}: frame {j} (box {fr['box']}, {mode}) evaluated by an object that has already seen "
+                           f"{hist} gives {tl} {vl}; a fresh object on the current contents gives {tf} {vf}")
+        # long-lived engine with its own buffers; in-place frames always go through the explicit-array route
+        _install(System, ebuf, case, mode, fr.get("scale"))
+        s2 = ebuf["s"]
+        s2.box = None if ebuf["box"] is None else s2.box
+        table["frame.xyz"] = (ebuf["pos"], ebuf["vel"], ebuf["box"])
+        explicit = (mode == "inplace") or j % 2 == 1
         try:
             with np.errstate(all="ignore"), warnings.catch_warnings():
                 warnings.simplefilter("ignore")
-                out = eng.calculate_order(s2) if j % 2 == 0 else eng.calculate_order(s2, xyz=xyz, vel=vel, box=box)
+                out = (eng.calculate_order(s2, xyz=ebuf["pos"], vel=ebuf["vel"], box=ebuf["box"]) if explicit
+                       else eng.calculate_order(s2))
             te, ve = "ok", [float(x) for x in out]
         except Exception as e:  # noqa: BLE001
             te, ve = err_kind(e), []
         if te != tf or (tf == "ok" and not same_vals(ve, vf, kinds, skip)):
-            return (SIG_H, f"{name}: frame {j} (box {fr['box']}) through a long-lived engine.calculate_order gives {te} {ve}; "
-                           f"a fresh object gives {tf} {vf} (boxes seen before: {[f['box'] for f in frames[:j]]})")
-        # the model's value for this system alone
+            return (SIG_H, f"{name}: frame {j} (box {fr['box']}, {mode}) through a long-lived engine.calculate_order "
+                           f"({'explicit arrays' if explicit else 'file'}) gives {te} {ve}; a fresh object gives {tf} {vf} "
+                           f"(seen before: {hist})")
+        # the model's value for the current contents alone
         if models is not None:
             mt, mv = models[j]
             if mt == "nan":
@@ -681,13 +719,17 @@ def check_history(opm, System, op, frames, models=None):
                 ev_, k_, s_ = tail(name, mv)
                 ok = tl == "ok" and same_vals(vl, ev_, k_, s_)
             if not ok:
-                return (SIG_H, f"{name}: frame {j} (box {fr['box']}) on a long-lived object gives {tl} {vl}; the model, a "
-                               f"function of the system only, gives {mt} {[str(x) for x in mv]}")
+                return (SIG_H, f"{name}: frame {j} (box {fr['box']}, {mode}) on a long-lived object gives {tl} {vl}; the model, "
+                               f"a function of the system only, gives {mt} {[str(x) for x in mv]}")
     return None
 
 
+SCALES = [Fr(2), Fr(1, 2), Fr(3, 2), Fr(3, 4), Fr(5, 4)]
+
+
 def rnd_history(rng, name, contiguous):
-    """one op with contiguous or non-contiguous indices and 4-6 frames with pairwise different boxes"""
+    """one op with contiguous or non-contiguous indices and 5-7 frames: pairwise different boxes, frames alternate
+    between new System / same System with new arrays / the same arrays changed in place (scaled or overwritten)"""
     n = rng.randint(6, 9)
     if name in ("position", "velocity"):
         op = rnd_op(rng, n, name)
@@ -703,15 +745,37 @@ def rnd_history(rng, name, contiguous):
                     break
         op = [name] + ids + [int(rng.random() < 0.85)]
     frames, seen = [], set()
-    for _ in range(rng.randint(4, 6)):
-        for _try in range(50):
+    nfr = rng.randint(5, 7)
+    for j in range(nfr):
+        mode = "new" if j == 0 else rng.choice(["inplace", "inplace", "samesys", "new"])
+        prev = frames[-1]["box"] if frames else None
+        scale = None
+        for _try in range(60):
             c = tie_free_case(rng, boxform=rng.choice(["3", "9", "3", "9", "none"]), n=n)
             c["op"] = op
+            if mode == "inplace" and prev is not None:
+                style = rng.choice(["scale", "axis", "overwrite"])
+                if style == "scale":
+                    scale = rng.choice(SCALES)
+                    c["box"] = [S(Fr(x) * scale) for x in prev]
+                elif style == "axis":
+                    scale = None
+                    c["box"] = list(prev)
+                    ax = rng.randrange(3)
+                    c["box"][ax] = S(rng.choice([L for L in LENGTHS if S(L) != prev[ax]]))
+                else:
+                    scale = None
+                    c["box"] = [S(rng.choice(LENGTHS)) for _ in range(3)] + list(prev[3:])
+            elif mode == "inplace":
+                c["box"] = None
             key = str(c["box"][:3]) if c["box"] else "none"
-            if key not in seen and not has_tie(c):
+            if (key not in seen or c["box"] is None) and not has_tie(c):
                 break
         seen.add(key)
-        frames.append({"pos": c["pos"], "vel": c["vel"], "box": c["box"]})
+        fr = {"pos": c["pos"], "vel": c["vel"], "box": c["box"], "mode": mode}
+        if scale is not None and mode == "inplace" and prev is not None:
+            fr["scale"] = S(scale)
+        frames.append(fr)
     return op, frames
 
 
@@ -902,13 +966,13 @@ def run(ctx):
             ctx.distinct(("calculate-order", str(c)))
     # ---- long-lived objects: one object (and one engine) per sequence of systems with different boxes
     hist = []
-    for rep in range(10 if q else 80):
+    for rep in range(16 if q else 100):
         for nm in names6:
             hist.append(rnd_history(rng, nm, contiguous=rep % 2 == 0))
     hmodels = [None] * len(hist)
     if have_model:
         var = "rep" if ctx.extra["variant"] == "repaired" else "asis"
-        flat = [line({"op": op, **fr}, var) for op, frames in hist for fr in frames]
+        flat = [line({"op": op, "pos": fr["pos"], "vel": fr["vel"], "box": fr["box"]}, var) for op, frames in hist for fr in frames]
         outh = [parse_model(x)[:2] for x in ctx.driver(flat)]
         pos_ = 0
         for k, (op, frames) in enumerate(hist):
@@ -916,13 +980,15 @@ def run(ctx):
             pos_ += len(frames)
     for k, (op, frames) in enumerate(hist):
         ctx.count(3 * len(frames), branch="history:" + op[0])
+        for f in frames:
+            ctx.hit("history-frame-mode:" + f["mode"])
         r = check_history(opm, System, op, frames, hmodels[k])
         if r:
             ctx.fail(r[0], r[1], {"kind": "history", "case": {"op": op, "frames": frames}, "extra": {}})
         else:
             ctx.distinct(("history", str(op), str(frames)))
         if k == 7:
-            ctx.sample({"stream": "history", "op": op, "boxes": [f["box"] for f in frames]})
+            ctx.sample({"stream": "history", "op": op, "frames": [(f["mode"], f["box"]) for f in frames]})
     # observation (not a failure; reported for a decision): Path.reverse(order_function) recomputes the
     # orders of velocity-dependent parameters with order_function.calculate(phasepoint), which reads
     # system.vel and ignores the vel_rev flag that reverse() has just toggled.
@@ -954,7 +1020,8 @@ def run(ctx):
         "image-shift invariance of the signed parameters is claimed (and tested) only away from exact half-box ties; at ties the sign depends on the image (proved)",
         "'the result is a function of the system only' is true of the Lean model by construction (value/calculate take only the System; "
         "there is no object state), so no separate theorem states it: its content is in the tie, which evaluates ONE long-lived object and "
-        "ONE long-lived engine over sequences of systems with different boxes against a fresh object and against the model per frame",
+        "ONE long-lived engine over sequences of systems (new Systems, the same System with new arrays, the same pos/vel/box arrays changed in place) "
+        "against a fresh object and against the model per frame",
         "state kept inside an order-parameter object is not counted as modifying the System; whether it can influence a later result is decided by the history predicate",
     ]
     ctx.assumptions += [a for a in new_assumptions if a not in ctx.assumptions]
